@@ -20,6 +20,17 @@ OP = "dewey::DeweyOp"
 
 
 _CTX = []
+# which parameters hold the two version vectors in the function being judged: dewey_cmp(lhs: &DeweyVersion, op, rhs: &DeweyVersion) reads
+# lhs.version / rhs.version; a helper that selects the deciding pair takes the two slices themselves
+MODE = {"l": 1, "r": 3, "field": "version"}
+
+
+def _is_ver(s, which):
+    """s is the version vector of the given side ('l' / 'r')"""
+    p = MODE[which]
+    if MODE["field"] is None:
+        return s == ("param", p) or s == ("deref", ("param", p))
+    return isinstance(s, tuple) and s and s[0] == "field" and s[3] == MODE["field"] and strip_refs(s[1]) in (("param", p), ("deref", ("param", p)))
 
 
 def side(t):
@@ -44,8 +55,8 @@ def side(t):
             break
     if is_index_call(t) or is_call(t, "[T]>::get", "Vec::get"):
         t = call_args(t)[0]   # the collection that is indexed, not the index
-    l = mentions(t, lambda s: s == ("param", 1))
-    r = mentions(t, lambda s: s == ("param", 3))
+    l = mentions(t, lambda s: s == ("param", MODE["l"]))
+    r = mentions(t, lambda s: s == ("param", MODE["r"]))
     if l and r:
         return "mixed"
     if l:
@@ -64,7 +75,8 @@ def is_rev(t):
 def vlen(t, p):
     """is t == len(&param_p.version)?"""
     t = strip_refs(t)
-    return is_call(t, "Vec::len", "[T]>::len") and mentions(call_args(t)[0], lambda s: s[0] == "field" and s[3] == "version" and strip_refs(s[1]) == ("param", p))
+    which = "l" if p == 1 else "r"
+    return is_call(t, "Vec::len", "[T]>::len") and (mentions(call_args(t)[0], lambda s: _is_ver(s, which)) or _is_ver(strip_refs(call_args(t)[0]), which))
 
 
 def is_min_len(t):
@@ -90,8 +102,9 @@ def padded_elem(t, param, p):
         x = strip_refs(x)
         if is_call(x, "Option::copied", "Option::cloned"):
             x = strip_refs(call_args(x)[0])
+        which = "l" if param == 1 else "r"
         if is_call(x, "[T]>::get", "Vec::get") and len(call_args(x)) == 2 and \
-                mentions(call_args(x)[0], lambda s: s[0] == "field" and s[3] == "version" and strip_refs(s[1]) in (("param", param), ("deref", ("param", param)))):
+                (mentions(call_args(x)[0], lambda s: _is_ver(s, which)) or _is_ver(strip_refs(call_args(x)[0]), which)):
             return call_args(x)[1]
         return None
     t0 = strip_refs(t)
@@ -109,9 +122,9 @@ def _version_of(t):
     """1 / 3 if t is (a plain view of) param.version for the lhs / rhs parameter, else None"""
     from lib import _iter_source
     t = _iter_source(t)
-    if isinstance(t, tuple) and t and t[0] == "field" and t[3] == "version" and strip_refs(t[1]) in (("param", 1), ("deref", ("param", 1))):
+    if isinstance(t, tuple) and _is_ver(t, "l"):
         return 1
-    if isinstance(t, tuple) and t and t[0] == "field" and t[3] == "version" and strip_refs(t[1]) in (("param", 3), ("deref", ("param", 3))):
+    if isinstance(t, tuple) and _is_ver(t, "r"):
         return 3
     return None
 
@@ -192,9 +205,59 @@ def tail_find_call(ctx, f):
     return side_ if nonzero else None
 
 
+class _Site:
+    """a place where the deciding pair of integers is produced: a dewey_test(a, op, b) call, or `return Some((a, b))` of a pair selector"""
+    kind = "call"
+
+    def __init__(self, bb, args):
+        self.bb, self.args = bb, args
+
+
+def selector_helper(ctx, paths):
+    """dewey_cmp may leave the search for the deciding components to a helper `fn(&[i64], &[i64]) -> Option<(i64, i64)>` and test the pair it
+    returns, or the revisions when it returns None.  Returns (helper key, its paths) when dewey_cmp is exactly
+        match helper(&lhs.version, &rhs.version) { Some((l, r)) => dewey_test(l, op, r), None => dewey_test(lhs.pkgrevision, op, rhs.pkgrevision) }
+    in any spelling (unwrap_or, map_or, if let ..), else None."""
+    fx = ctx.fx
+    rets = ret_paths(paths)
+    hs = set()
+    for p in rets:
+        for c in p.conds():
+            if c.term[0] == "discr" and is_call(strip_refs(c.term[1])) and fx.fn(strip_refs(c.term[1])[1]) is not None and strip_refs(c.term[1])[1] != TEST:
+                hs.add(strip_refs(c.term[1]))
+    if len(hs) != 1 or ctx.body(CMP).loops:
+        return None
+    H = next(iter(hs))
+    a = call_args(H)
+    if len(a) != 2 or _version_of(a[0]) != 1 or _version_of(a[1]) != 3:
+        return None
+    pay = ("field", ("downcast", H, "Some"), 0, "0")
+    ok = bool(rets)
+    for p in rets:
+        f = [c.fact for c in p.conds() if c.term == ("discr", H)]
+        t = strip_refs(p.end[1])
+        if not (f and is_call(t, TEST) and len(call_args(t)) == 3 and strip_refs(call_args(t)[1]) == ("param", 2)):
+            return None
+        x, y = strip_refs(call_args(t)[0]), strip_refs(call_args(t)[2])
+        if f[-1] == ("eq", 1):
+            ok = ok and isinstance(x, tuple) and isinstance(y, tuple) and x[0] == "field" and y[0] == "field" and x[2] == 0 and y[2] == 1 and strip_refs(x[1])[:3] == pay[:3] and strip_refs(y[1])[:3] == pay[:3]
+        else:
+            ok = ok and is_rev(x) and is_rev(y) and side_param(x) == 1 and side_param(y) == 3
+    if not ok:
+        return None
+    return H[1], ctx.paths(H[1]) or []
+
+
+def side_param(t):
+    l = mentions(t, lambda s: s == ("param", 1))
+    r = mentions(t, lambda s: s == ("param", 3))
+    return 1 if l and not r else (3 if r and not l else None)
+
+
 def run(ctx):
     fx = ctx.fx
     _CTX[:] = [ctx]
+    MODE.update(l=1, r=3, field="version")
     # ---- CMP-2
     paths = ctx.paths(TEST)
     body = ctx.body(TEST)
@@ -206,6 +269,33 @@ def run(ctx):
             r = p.end[1]
             if isinstance(v, str) and isinstance(r, tuple) and r[0] == "binop":
                 got[v] = (r[1], r[2], r[3])
+        # the same table written through the three-way comparison: matches!((op, lhs.cmp(&rhs)), (GE, Greater | Equal) | (GT, Greater) | ..)
+        CMPV = {255: "Less", 0: "Equal", 1: "Greater", -1: "Less"}
+        TRUE_ON = {"Ge": {"Greater", "Equal"}, "Gt": {"Greater"}, "Le": {"Less", "Equal"}, "Lt": {"Less"}}
+        if not got:
+            tbl = {}
+            okc = True
+            for p in ret_paths(paths):
+                v = self_discr_variant(fx, p, OP, lambda t: strip_refs(t) == ("param", 2))
+                cc = [c for c in p.conds() if c.term[0] == "discr" and is_call(strip_refs(c.term[1]), "Ord>::cmp", "::cmp")]
+                if not isinstance(v, str):
+                    continue
+                if not cc or const_of(p.end[1]) not in (True, False):
+                    okc = False
+                    continue
+                ca = call_args(strip_refs(cc[-1].term[1]))
+                okc = okc and strip_refs(ca[0]) == ("param", 1) and strip_refs(ca[1]) == ("param", 3)
+                f = cc[-1].fact
+                ords = {CMPV.get(f[1])} if f[0] == "eq" else {"Less", "Equal", "Greater"} - {CMPV.get(x) for x in f[1]}
+                for o in ords:
+                    tbl.setdefault(v, {})[o] = const_of(p.end[1])
+            if okc:
+                for v, tb in tbl.items():
+                    if set(tb) == {"Less", "Equal", "Greater"}:
+                        on = {o for o, val in tb.items() if val}
+                        for opn, s_ in TRUE_ON.items():
+                            if on == s_:
+                                got[v] = (opn, ("param", 1), ("param", 3))
         for v, op in want.items():
             g = got.get(v)
             ctx.check(g is not None and g[0] == op and g[1] == ("param", 1) and g[2] == ("param", 3), "CMP-2", TEST, "op=%s" % v, "%s -> lhs %s rhs" % (v, op),
@@ -239,12 +329,32 @@ def run(ctx):
     # call sites
     # call sites, one per (place in the code, which sides the two operands come from): a zero-padded lock-step loop has a single place
     # whose operands are an element or the 0 padding depending on the path
-    sites = {}
-    for p in paths:
-        for e in p.events:
-            if e.kind == "call" and e.path == TEST:
+    helper = selector_helper(ctx, paths)
+    if helper is not None:
+        HK, hpaths = helper
+        body = ctx.body(HK)
+        MODE.update(l=1, r=2, field=None)
+        sites = {}
+        for p in ret_paths(hpaths):
+            sm = unwrap_some(p.end[1])
+            tv = strip_refs(sm) if sm is not None else None
+            if isinstance(tv, tuple) and tv[:2] == ("agg", "tuple") and len(tv[4]) == 2:
+                e = _Site(p.blocks[-1] if p.blocks else 0, (tv[4][0], ("param", 2), tv[4][1]))
                 sites.setdefault((e.bb, side(e.args[0]), side(e.args[2])), []).append((e, p))
-    ctx.floor("CMP-3", CMP, "dewey_test call sites", len(sites), 4)
+        # the helper answers None only when every component tied (all its loops exhausted), Some(pair) otherwise
+        nones = [p for p in ret_paths(hpaths) if is_none(p.end[1])]
+        okn = bool(nones) and all(all(c.fact == ("eq", 0) for c in p.conds() if c.term[0] == "discr" and is_call(strip_refs(c.term[1]), "::next")) and
+                                  any(c.term[0] == "discr" and is_call(strip_refs(c.term[1]), "::next") for c in p.conds()) for p in nones)
+        other = [p for p in ret_paths(hpaths) if not is_none(p.end[1]) and unwrap_some(p.end[1]) is None]
+        ctx.check(okn and not other, "CMP-5", HK, "none-only-when-all-tied", "the pair selector answers None only after every component tied",
+                  "%s can answer None before all components were compared (or returns something other than Some(pair) / None)" % HK, fn_span(body))
+    else:
+        sites = {}
+        for p in paths:
+            for e in p.events:
+                if e.kind == "call" and e.path == TEST:
+                    sites.setdefault((e.bb, side(e.args[0]), side(e.args[2])), []).append((e, p))
+    ctx.floor("CMP-3", CMP, "dewey_test call sites", len(sites) + (1 if helper is not None else 0), 4)
     last_bb = max(k[0] for k in sites) if sites else None
     for (bb, _sa, _sb), lst in sorted(sites.items()):
         e0 = lst[0][0]
@@ -351,6 +461,7 @@ def run(ctx):
     ctx.check(kinds == {("l", "r"), ("zero", "r"), ("l", "zero")}, "CMP-4", CMP, "three-regions", "common prefix, lhs shorter, lhs longer",
               "component comparisons cover %s; expected common prefix (l,r) and both zero-padding regions" % sorted(kinds), fn_span(body))
 
+    MODE.update(l=1, r=3, field="version")
     # ---- conjunction in Dewey::matches
     DM = "dewey::Dewey::matches"
     paths = ctx.paths(DM)
